@@ -145,6 +145,8 @@ pub struct World {
     pub inline_ping: [Option<h2::PingPong>; 2],
     /// re-entrancy guard: an inline operation never triggers another one
     pub in_inline: bool,
+    /// quiescences so far (mirrors the executor's counter)
+    pub nq: usize,
 }
 
 pub struct ParkedSend {
@@ -176,6 +178,7 @@ impl World {
             inline_sr: None,
             inline_ping: [None, None],
             in_inline: false,
+            nq: 0,
         }
     }
     pub fn log(&mut self, v: Value) {
@@ -222,7 +225,8 @@ fn run_inline(w: &Shared, kind: &str, ep: usize) {
         let mut due = vec![];
         let mut rest = vec![];
         for st in std::mem::take(&mut g.inline_steps) {
-            if st.ep == ep && ((st.at == kind && st.nth == ck) || (st.at == "any" && st.nth == ca)) {
+            let hit = if st.min_q > 0 { (st.at == kind || st.at == "any") && g.nq >= st.min_q } else { (st.at == kind && st.nth == ck) || (st.at == "any" && st.nth == ca) };
+            if st.ep == ep && hit {
                 due.push(st);
             } else {
                 rest.push(st);
@@ -439,6 +443,13 @@ fn exec_inline_inner(w: &Shared, st: &crate::scenario::InlineStep, kind: &str) {
                     Err(e) => api.ev("send_request", 0, *tag, "err", json!({"hdr": canon, "eos": true, "e": err_json(&e)})),
                 }
                 w.lock().unwrap().inline_sr = Some(sr);
+            }
+        }
+        DropSr => {
+            let sr = w.lock().unwrap().inline_sr.take();
+            if let Some(sr) = sr {
+                api.ev("drop_sr", 0, 0, "ok", json!({}));
+                drop(sr);
             }
         }
         Ping => {
